@@ -201,6 +201,21 @@ fn run_suite<S: ShortGroupSignatureScheme>(em: &mut Emitter, base: &mut Rng, sui
                 fresh_id(&mut kc2, "d1");
                 try_request(em, "non-blindable-claim-blinded", &req, &kc2, &mut issuer);
             }
+            // D1b: the same next to a genuinely blindable claim (a policy test on "some label is blindable" passes this)
+            if let Some(bl) = blindable.first() {
+                let ib = labels.iter().position(|l| l == bl).unwrap();
+                let mut pairs = vec![(idx, all[idx].to_scalar()), (ib, all[ib].to_scalar())];
+                pairs.sort_by_key(|(i, _)| *i);
+                let nonce = rng.scalar();
+                if let Ok((ctx, _)) = S::new_blind_signature_context(&pairs, &public.verifying_key, nonce, rng.chacha()) {
+                    for order in [vec![bl.to_string(), nb.to_string()], vec![nb.to_string(), bl.to_string()]] {
+                        let req = BlindCredentialRequest::<S> { blind_signature_context: ctx.clone(), blind_claim_labels: order.clone(), nonce };
+                        let (_, mut kc2) = split_claims(&all, &labels, &order);
+                        fresh_id(&mut kc2, "d1b");
+                        try_request(em, "non-blindable-claim-blinded-with-a-blindable-one", &req, &kc2, &mut issuer);
+                    }
+                }
+            }
         }
         // D2: a label both blinded and supplied by the issuer (one known claim dropped to keep the count)
         {
